@@ -313,3 +313,43 @@ def reader_complete(inp):
     short_ = lambda l: [(a, (b[:24] + ".." if isinstance(b, str) and len(b) > 26 else b)) for a, b, *_ in [x + (None,) for x in l]][:8]
     return {"fails": fails, "expected": {"events": short_(want), "handler_calls": want_calls, "consumed": len(data)},
             "observed": {"events": short_(obs), "handler_calls": len(calls), "consumed": st.pos}}
+
+
+@check
+def table_entry(inp):
+    """Re-evaluates one closed table obligation on the current tree."""
+    from spec import tablecheck as tc
+    name = inp["obligation"]
+    for fn in (tc.wf_lemmas, tc.length_lemmas, tc.sibling_lemmas, tc.msm_table_lemmas, tc.naming_lemmas):
+        for n, ok, d in fn():
+            if n == name:
+                return {"fails": not ok, "expected": "holds", "observed": d}
+    return {"fails": False, "expected": None, "observed": "obligation no longer generated"}
+
+
+@check
+def truncation_rejected(inp):
+    """C06: a complete message truncated by whole bytes must not construct."""
+    from spec import refdecode
+    p = bytes.fromhex(inp["payload"])
+    obs = refdecode.real_decode(p)
+    return {"fails": obs[0] == "ok", "expected": ("error", f"truncated to {len(p)} of {inp.get('full')} bytes"), "observed": (obs[0], str(obs[1])[:120])}
+
+
+@check
+def label_option(inp):
+    """C16: the four option values agree on everything except CELLSIG_*, 0/1/True coincide, and a signal ID has one label."""
+    from spec import refdecode
+    p = bytes.fromhex(inp["payload"])
+    res = {}
+    for opt in (0, 1, 2, True):
+        r = refdecode.real_decode(p, opt)
+        res[repr(opt)] = r[:2]
+    ref1, ref2 = refdecode.ref_decode(p, 1), refdecode.ref_decode(p, 2)
+    kinds = {v[0] for v in res.values()}
+    if kinds != {"ok"}:
+        return {"fails": len(kinds) != 1 or "foreign" in kinds, "expected": "same outcome under every option", "observed": {k: v[0] for k, v in res.items()}}
+    a, b = res["1"][1], res["2"][1]
+    strip = lambda d: {k: v for k, v in d.items() if not k.startswith("CELLSIG_")}
+    bad = strip(a) != strip(b) or res["0"][1] != a or res["True"][1] != a or a != ref1[1] or b != ref2[1]
+    return {"fails": bad, "expected": "agreement outside CELLSIG_*, and with the reference decoder", "observed": "differs" if bad else "agrees"}
